@@ -78,12 +78,15 @@ def denseIdxRho (p x : Nat) : Nat × Nat :=
 
 /-! ### the compressed list: delta + varint -/
 
-/-- `variableLengthList.Append(x)`: the bytes appended for one (32-bit) delta -/
-def varint (x : Nat) : List Nat :=
-  if x &&& 0xffffff80 ≠ 0 then ((x &&& 0x7f) ||| 0x80) :: varint (x >>> 7) else [x &&& 0x7f]
-decreasing_by
-  have : x ≠ 0 := by intro h; subst h; simp at *
-  rw [Nat.shiftRight_eq_div_pow]; omega
+/-- `variableLengthList.Append(x)`: the bytes appended for one 32-bit delta.
+    `for x&0xffffff80 != 0 { append((x&0x7f)|0x80); x >>= 7 }; append(x&0x7f)` — for a `uint32` the
+    loop body runs at most 4 times (28 bits), which is the fuel. -/
+def varintGo : Nat → Nat → List Nat
+  | 0, x => [x &&& 0x7f]
+  | fuel + 1, x =>
+    if x &&& 0xffffff80 ≠ 0 then ((x &&& 0x7f) ||| 0x80) :: varintGo fuel (x >>> 7) else [x &&& 0x7f]
+
+def varint (x : Nat) : List Nat := varintGo 4 x
 
 /-- bytes of `compressedList.b` after appending `vals` in order, starting from `last` -/
 def encodeVals : Nat → List Nat → List Nat
@@ -121,14 +124,18 @@ def insertSorted (k : Nat) : List Nat → List Nat
   | [] => [k]
   | a :: as => if k < a then k :: a :: as else if k = a then a :: as else a :: insertSorted k as
 
-/-- the merge loop of `mergeSparse` over the iterator values and the sorted keys -/
-def mergeLoop : List Nat → List Nat → List Nat
-  | [], keys => keys
-  | vals, [] => vals
-  | x1 :: vs, x2 :: ks =>
-    if x1 = x2 then x1 :: mergeLoop vs ks
-    else if x1 > x2 then x2 :: mergeLoop (x1 :: vs) ks
-    else x1 :: mergeLoop vs (x2 :: ks)
+/-- the merge loop of `mergeSparse` over the iterator values and the sorted keys
+    (`fuel` ≥ the number of loop iterations = at most the two lengths together) -/
+def mergeLoopGo : Nat → List Nat → List Nat → List Nat
+  | _, [], keys => keys
+  | _, vals, [] => vals
+  | 0, vals, keys => vals ++ keys            -- not reached
+  | fuel + 1, x1 :: vs, x2 :: ks =>
+    if x1 = x2 then x1 :: mergeLoopGo fuel vs ks
+    else if x1 > x2 then x2 :: mergeLoopGo fuel (x1 :: vs) ks
+    else x1 :: mergeLoopGo fuel vs (x2 :: ks)
+
+def mergeLoop (vals keys : List Nat) : List Nat := mergeLoopGo (vals.length + keys.length) vals keys
 
 /-- `mergeSparse` -/
 def mergeSparse (h : Plus) : Plus :=
